@@ -60,6 +60,12 @@ def c16(ctx):
     snippets = sample_corpus(rng, 1500 if ctx.tier == "quick" else 10 ** 6)
     for sn in snippets:
         cases.append({"src": sn["src"], "media": rng.choice(MEDIA), "rules": "all"})
+    # per-file configuration must reach both entry points identically: JSX programs under different factory configurations
+    import props_c18
+    for _ in range(600 if ctx.tier == "quick" else 6000):
+        gp = props_c18.gen_program(rng)
+        cf, cg = rng.choice(props_c18.CONFIGS)
+        cases.append({"src": gp["src"], "media": "tsx", "rules": rng.choice(["all", ["no-unused-vars"]]), "jsx": cf, "jsxfrag": cg})
     a = lib.run_vh("lint", cases)
     b = lib.run_vh("lint", [dict(c, entry="ast") for c in cases])
     mism, nontriv = [], set()
@@ -110,7 +116,17 @@ def c02(ctx):
     RX = ["/(?<a>x)(/", "/\\k/", "/\\k<b>(?<a>x)/", "/abc/", "/(?<n>.)\\k<n>/u", "/[/", "/a{2,1}/", "/(?<a>a)(?<a>b)/", "/\\u{110000}/u",
           "new RegExp('(?<x>y)(')", "new RegExp('\\\\k<x>')", "/(?<=a)+/", "/\\1(a)/", "/(?:a/", "/a**/", "/\\p{Foo}/u", "/x{1,}?/"]
     for _ in range(300 if ctx.tier == "quick" else 3000):
-        files.append({"src": ";\n".join(rng.choice(RX) for _ in range(rng.randint(1, 3))) + ";", "media": "js"})
+        files.append({"src": ";\n".join(rng.choice(RX) for _ in range(rng.randint(1, 3))) + ";", "media": "js", "rx": True})
+    # several deeply nested INVALID patterns followed by a deeply nested valid one (counters/stacks that are not unwound on the error path)
+    for _ in range(60 if ctx.tier == "quick" else 600):
+        parts = []
+        for _ in range(rng.randint(2, 5)):
+            d = rng.choice([40, 80, 120])
+            parts.append("/" + "(?:a|(b)" * d + ")" * rng.randint(0, d // 2) + "/")
+        d = rng.choice([30, 60, 100, 150])
+        parts.append("/" + "(" * d + "x" + ")" * d + "/")
+        parts.append("/a/")
+        files.append({"src": ";\n".join(parts) + ";", "media": "js", "rx": True})
     rng.shuffle(files)
     groups = [files[i:i + 40] for i in range(0, len(files), 40)]
     multi = []
@@ -169,6 +185,33 @@ def c02(ctx):
                     if nhist <= 3:
                         ctx.violation("C02.history-or-thread-dependent", "output on a reused/shared Linter differs from a fresh one (variant %d)" % vi,
                                       {"file": g[it["file"]], "fresh": json.loads(base[it["file"]]), "reused": it["res"], "variant": ["in order", "reversed", "shuffled", "8 threads"][vi]})
+    # within one file: the verdict for a regular expression does not depend on the expressions before it
+    rxfiles = [f for f in files if f.get("rx")][:400]
+    line_cases, line_meta = [], []
+    for fi, f in enumerate(rxfiles):
+        for li, ln in enumerate(f["src"].split("\n")):
+            line_cases.append({"src": ln, "media": "js", "rules": ["no-invalid-regexp"]})
+            line_meta.append((fi, li))
+    whole = lib.run_vh("lint", [dict(f, rules=["no-invalid-regexp"]) for f in rxfiles], per_case_timeout=20)
+    alone = lib.run_vh("lint", line_cases, per_case_timeout=20)
+    alone_rep = collections.defaultdict(set)
+    for (fi, li), r0 in zip(line_meta, alone):
+        if status(r0) == "ok" and r0["ok"]:
+            alone_rep[fi].add(li)
+    nseq = 0
+    for fi, (f, r0) in enumerate(zip(rxfiles, whole)):
+        if status(r0) != "ok":
+            continue
+        b = f["src"].encode("utf8")
+        got = {b[:d["start"]].count(b"\n") for d in r0["ok"]}
+        if got != alone_rep[fi]:
+            nseq += 1
+            if nseq <= 2:
+                ctx.violation("C02.regex-verdict-depends-on-earlier-expressions-in-the-file", "lines reported in the whole file %s, each line alone %s" % (sorted(got), sorted(alone_rep[fi])),
+                              {"file": f})
+    # the dlint driver (examples/dlint/main.rs is among this property's anchors): same report for every schedule
+    import props_dlint
+    ndl = props_dlint.dlint_fatal_determinism(ctx, "C02")
     ctx.correspondence("fresh vs reused vs reordered vs 8-thread shared Linter; 3 repetitions in fresh processes", len(cases) * 3 + len(multi) * 40, len(nontriv), [],
                        "implementation differential; non-trivial := file with at least one diagnostic")
 
